@@ -1396,6 +1396,7 @@ fn gen_c20(ch: &mut Chunker, r: &mut Rng, thorough: bool, scale: usize) {
         }
     }
     rec_c20(ch, "foo", 0, &Opts::new(10), "", "", "");
+
 }
 
 // ---------------------------------------------------------------------------------------------
@@ -1454,6 +1455,13 @@ fn gen_c04(ch: &mut Chunker, r: &mut Rng, thorough: bool, scale: usize) {
             }
         }
     }
+    // sizes nobody writes down: a very wide table, a long run of blank lines
+    let wide = Opts { sep: Sep::Ascii, alg: Alg::FF, ..Opts::new(70_000) };
+    rec_call_columns(ch, "x", 1, &wide, "", "", "");
+    rec_call_columns(ch, "a b c", 3, &Opts { width: 200_005, ..wide.clone() }, "|", "|", "|");
+    let blanks = "\n".repeat(150_000);
+    rec_call(ch, "refill", &format!("a{}b", blanks), &Opts { sep: Sep::Ascii, alg: Alg::FF, ..Opts::new(10) });
+    rec_call(ch, "wrap", &blanks, &Opts { sep: Sep::Ascii, alg: Alg::FF, ..Opts::new(10) });
     gen_frags(ch, r, "C04", thorough, scale);
 }
 
